@@ -85,6 +85,11 @@ def run(tier):
         'BN_BIT_LEN = 16 digits so that the library\'s own temporaries (4 + digits, 2*digits + 1) fit',
     ]
     mx = matrix(tier)
+    only = [x for x in os.environ.get('C01_CONFIGS', '').split(',') if x]   # development/triage aid: substring filter on configuration names
+    if only:
+        mx = [c for c in mx if any(o in cfg_name(*c) for o in only)]
+        rep.exhaustive = False
+        rep.notes.append('configuration filter C01_CONFIGS=%s in effect' % ','.join(only))
     t0 = time.time()
     bins, skipped = {}, []
 
@@ -97,7 +102,7 @@ def run(tier):
     with ThreadPoolExecutor(max_workers=core.NCPU) as ex:
         res = list(ex.map(b1, jobs))
         x32 = []
-        if tier == 'thorough':
+        if tier == 'thorough' and (not only or 'x32' in only):
             def bx(cc):
                 fl = ['-DBN_CC_MULL_DIV'] if cc else []
                 return core.compile_c('C01', 'h_x32_' + ('cc' if cc else 'port'), ['harness/C01/h_x32.c'], flags=fl, cc='gcc', opt='-O2', san='none')
